@@ -8,7 +8,8 @@ E == Entries(Nest, FileNameClasses, ContentClasses)
 Singles == {{e} : e \in E}
 Pick(k, n) == {T \in RandomSetOfSubsets(k, n, E) : Cardinality(T) >= 2 /\ Cardinality(T) <= 5 /\ Consistent(T)}
 Trees == Singles \cup {{}} \cup Pick(NPairs, 2) \cup Pick(NTriples, 3) \cup Pick(NQuads, 4)
-Cases == {[entries |-> SetToSeq(T \cup {BaseEntry})] : T \in Trees}
+\* every tree is placed under a pseudo-randomly chosen kind of root (the expected result does not depend on it)
+Cases == {[entries |-> SetToSeq(T \cup {BaseEntry}), root |-> RandomElement(RootKinds)] : T \in Trees}
 ASSUME JsonSerialize(IOEnv.VERIF_OUT, SetToSeq(Cases))
 ASSUME PrintT(<<"@@PRINT@@ cases", Cardinality(Cases), Cardinality(E)>>)
 VARIABLE dummy
